@@ -5,9 +5,10 @@
      leave(t, how)                      task t leaves its innermost block (return / exc / cancel / tdraise)
      spawn(t, u)                        task t spawns task u (from inside its current block, if any)
      cur(t, obs)                        current_context() observed in task t (0 = NoCurrentContext), after every step for every task
-     comp(t, prep, start, inner, restored)   task t ran start_component: observed parents of contexts created in prepare() and
-                                        start(), of a context nested inside prepare(), and whether the current context was
-                                        restored after leaving that nested block                                          *)
+     comp(t, prep, start, inner, given, restored)   task t ran start_component: observed parents of contexts created in prepare()
+                                        and start(), of a context nested inside prepare(), of a context created with
+                                        Context(current_context()) there (the component's view of the context handed over
+                                        explicitly), and whether the current context was restored after leaving the nested block *)
 EXTENDS Naturals, Sequences, FiniteSets
 MonInit == [stack |-> <<>>, base |-> <<>>, last |-> [k |-> "none", t |-> 0, u |-> 0], ok |-> TRUE, why |-> "", hits |-> {}]
 Fail(m, w) == [m EXCEPT !.ok = FALSE, !.why = w]
@@ -37,6 +38,7 @@ MonNext(m, e) ==
          LET want == Cur(m, e.t) IN
          IF e.prep # want \/ e.start # want THEN Fail(m, "context-created-in-prepare-or-start-has-wrong-parent")
          ELSE IF e.inner # want THEN Fail(m, "context-nested-in-prepare-has-wrong-parent")
+         ELSE IF e.given # want THEN Fail(m, "context-given-the-components-own-context-explicitly-has-wrong-parent")
          ELSE IF ~e.restored THEN Fail(m, "current-context-not-restored-inside-prepare")
          ELSE [Hit(m, "component") EXCEPT !.last = [k |-> "comp", t |-> e.t, u |-> 0]]
     [] OTHER -> m
